@@ -35,12 +35,27 @@ struct World {
    std::vector<std::unique_ptr<THDM>> tp;
 };
 
+// The models of one world are "near twins" in their Standard Model inputs: each input is the default value times
+// (1 + u) with u = 0, a few 1e-12 .. 1e-10, or 1e-3.  Results of twins differ in their last bits, so that a value
+// memoised across models (exactly or within a tolerance) or shared scratch state shows up as a changed bit pattern
+// in another evaluation order, and every evaluation writes to such state (visible to ThreadSanitizer).
+double twin(vt::Rng& r, double x)
+{
+   const int c = r.below(4);
+   if (c == 0) return x;
+   if (c == 1) return x * (1 + (1 + r.below(9)) * 1e-12);
+   if (c == 2) return x * (1 - (1 + r.below(9)) * 1e-11);
+   return x * (1 + r.uni(-1e-3, 1e-3));
+}
+
 MSSMNoFV_onshell make_mssm(std::uint64_t seed)
 {
    vt::Rng r(seed);
    for (int k = 0; k < 50; ++k) {
       MSSMNoFV_onshell m;
       vm::MssmPt p = vm::random_mssm(r, 300, 2000, 3, 50);
+      p.as = twin(r, p.as); p.MZ = twin(r, p.MZ); p.Mb = twin(r, p.Mb); p.Mt = twin(r, p.Mt); p.aMZ = twin(r, p.aMZ);
+      p.Mtau = twin(r, p.Mtau); p.MW = twin(r, p.MW);
       if (vm::exc_class([&] { vm::apply(m, p); m.calculate_masses(); }).empty()) return m;
    }
    MSSMNoFV_onshell m; vm::apply(m, vm::MssmPt()); m.calculate_masses(); return m;
@@ -51,6 +66,9 @@ std::unique_ptr<THDM> make_thdm(std::uint64_t seed)
    vt::Rng r(seed);
    for (int k = 0; k < 50; ++k) {
       vm::ThdmPt p = vm::random_thdm_mass(r, 1 + r.below(6), r.coin());
+      p.sm.set_alpha_s_mz(twin(r, p.sm.get_alpha_s_mz())); p.sm.set_mz(twin(r, p.sm.get_mz())); p.sm.set_mw(twin(r, p.sm.get_mw()));
+      p.sm.set_md(2, twin(r, p.sm.get_md(2))); p.sm.set_mu(2, twin(r, p.sm.get_mu(2))); p.sm.set_ml(2, twin(r, p.sm.get_ml(2)));
+      p.sm.set_alpha_em_mz(twin(r, p.sm.get_alpha_em_mz())); p.sm.set_mh(twin(r, p.sm.get_mh()));
       std::unique_ptr<THDM> m;
       if (vm::exc_class([&] { m.reset(new THDM(p.mb, p.sm, p.cfg)); }).empty()) return m;
    }
